@@ -246,6 +246,29 @@ def gen(rng, tier, shard, batch):
                                     reqs.append("mode " + rng.choice(MODES))
                                     reqs.append("%s * %s %s" % (rng.choice(("div", "cdiv")), G.fD(sa * a, p_), G.fD(sb * b, q_)))
                                     break
+    # ... the same for the wide product: |x * y| = (2^127 - 1) * 10^sh + r with 0 <= r < 10^sh, all sign pairs, every mode,
+    # as kernel requests (i128_mul_div_ten_pow_rounded, i256_div_mod_floor) and as mul_rounded / *
+    if batch == 0:
+        for sh in range(1, 37):
+            if (sh + shard) % 4:
+                continue
+            for _try in range(200):
+                a = rng.randrange(P10[sh] // 3 + 1, min(M, 4 * P10[sh]))
+                b = -((-M * P10[sh]) // a)
+                rem = a * b - M * P10[sh]
+                if 0 < b <= M and 0 <= rem < P10[sh]:
+                    break
+            else:
+                continue
+            for sa, sb in ((1, 1), (-1, 1), (1, -1), (-1, -1)):
+                for m in MODES:
+                    reqs.append("k_mulr %d %d %d %s" % (sa * a, sb * b, sh, m))
+                reqs.append("k_i256 %d %d %d" % (sa * a, sb * b, P10[sh]))
+                ab = [(p_, q_) for p_ in range(19) for q_ in range(19) if 0 <= p_ + q_ - sh <= 18]
+                if ab:
+                    p_, q_ = rng.choice(ab)
+                    reqs.append("mode " + rng.choice(MODES))
+                    reqs.append("mulr * %s %s %d" % (G.fD(sa * a, p_), G.fD(sb * b, q_), p_ + q_ - sh))
     # the high-word pre-reduction boundary: the upper 128-bit word of the dividend equals the divisor (+-1)
     for _ in range(60 if batch == 0 else 10):
         k = rng.randrange(20, 39)
